@@ -757,3 +757,166 @@ def events_monitor(task):
                 bound=f"{n} seeded session documents (5 time zones incl. DST months, periods 1/5/7.5/15, max_len None/3/40, force_feasible on/off, default and "
                       f"fitted two-stage batteries), stubbed data client for get_evs/generate_events, {n // 2} sample matrices, {n} (energy, stay) pairs for the capacity fit",
                 evaluations=evals, distinct_nontrivial=len(distinct), violations=viol, wall_s=round(time.time() - t0, 2))
+
+
+# ============================================================================ C20: ACN-Data client
+def dataclient_monitor(task):
+    """The real DataClient against a stub server (requests.get replaced): every paging structure up to the bound, all query argument
+    combinations; RFC-1123 conversions around DST transitions of the zones ACN-Data uses."""
+    import copy as _copy
+    import itertools as _it
+    from datetime import datetime, timedelta
+    from email.utils import format_datetime
+    import pytz
+    import acnportal.acndata.data_client as dc
+    from acnportal.acndata import utils as du
+    t0 = time.time()
+    prop, tier, seed0 = task["prop"], task.get("tier", "quick"), int(task.get("seed", 0))
+    rnd = random.Random(seed0)
+    evals = 0
+    viol = []
+    distinct = set()
+
+    def bad(tag, detail):
+        if len(viol) < 5:
+            rp = write_replay(prop, f"fnmon_{tag}_{len(viol)}.json", dict(kind="fn_monitor", monitor="dataclient_monitor", property=prop, clause=tag, detail=detail))
+            viol.append(dict(what=f"{tag}: {detail}"[:300], replay=rp))
+
+    def rfc(dt_utc):
+        return dt_utc.strftime("%a, %d %b %Y %H:%M:%S GMT")
+
+    class Resp:
+        def __init__(self, payload):
+            self._p = payload
+
+        def json(self):
+            return _copy.deepcopy(self._p)
+
+    class Server:
+        def __init__(self, pages, first_prefix):
+            self.pages, self.log, self.first_prefix = pages, [], first_prefix
+
+        def get(self, url, auth=None):
+            self.log.append((url, auth))
+            if len(self.log) == 1:
+                i = 0
+            else:
+                i = int(url.rsplit("page=", 1)[1])
+            items = self.pages[i]
+            links = {}
+            if i + 1 < len(self.pages):
+                links["next"] = {"href": f"sessions/x?page={i + 1}"}
+            links["self"] = {"href": f"sessions/x?page={i}"}
+            links["parent"] = {"href": "/"}
+            return Resp({"_items": items, "_links": links})
+
+    # page structures: up to 4 pages with 0..3 items each (quick: all structures with <= 3 pages of <= 2 items)
+    sizes = [0, 1, 2] if tier == "quick" else [0, 1, 2, 3]
+    maxp = 3 if tier == "quick" else 4
+    structs = [s for n in range(1, maxp + 1) for s in _it.product(sizes, repeat=n)]
+    uid = [0]
+
+    def mkdoc():
+        uid[0] += 1
+        base = pytz.utc.localize(datetime(2019, rnd.choice([3, 6, 11]), rnd.randint(1, 28), rnd.randint(0, 23), rnd.randint(0, 59), rnd.randint(0, 59)))
+        d = {"_id": f"id{uid[0]}", "sessionID": f"sess{uid[0]}", "timezone": rnd.choice(["America/Los_Angeles", "America/New_York", "UTC"]),
+             "connectionTime": rfc(base), "disconnectTime": rfc(base + timedelta(hours=3)), "doneChargingTime": None, "kWhDelivered": 3.2,
+             "siteID": "0002", "userInputs": None, "note": "not a date"}
+        if rnd.random() < 0.5:
+            d["chargingCurrent"] = {"current": [1.0, 2.0], "timestamps": [rfc(base + timedelta(minutes=5 * k)) for k in range(2)]}
+        return d, base
+
+    orig_get = dc.requests.get
+    try:
+        for st in structs:
+            pages, bases = [], {}
+            for n_items in st:
+                pg = []
+                for _ in range(n_items):
+                    d, b = mkdoc()
+                    pg.append(d)
+                    bases[d["_id"]] = b
+                pages.append(pg)
+            for (cond, project, sort, ts) in ([(None, None, None, False), ("kWhDelivered > 5", "sessionID", "connectionTime", True)] if tier == "quick"
+                                              else _it.product([None, 'a == "b"'], [None, "sessionID"], [None, "connectionTime"], [False, True])):
+                srv = Server(pages, "")
+                dc.requests.get = srv.get
+                cl = dc.DataClient("TOKEN", url="https://h/api/v1/")
+                evals += 1
+                distinct.add((st, cond, project, sort, ts))
+                got = list(cl.get_sessions("jpl", cond=cond, project=project, sort=sort, timeseries=ts))
+                want_ids = [d["_id"] for pg in pages for d in pg]
+                if [g["_id"] for g in got] != want_ids:
+                    bad("every_session_once_in_server_order", f"pages {st}: got {[g['_id'] for g in got]} want {want_ids}")
+                if len(srv.log) != len(pages):
+                    bad("one_request_per_page_following_next", f"pages {st}: {len(srv.log)} requests")
+                exp = "https://h/api/v1/sessions/jpl" + ("/ts/" if ts else "") + "?" + "&".join(
+                    ([f"where={cond}"] if cond is not None else []) + ([f"project={project}"] if project is not None else [])
+                    + ([f"sort={sort}"] if sort is not None else []) + [f"max_results={1 if ts else 100}"])
+                if srv.log[0][0] != exp or any(a != ("TOKEN", "") for _, a in srv.log):
+                    bad("first_request_carries_site_filter_sort_page_size", f"sent {srv.log[0][0]} expected {exp}")
+                for k, (u, _) in enumerate(srv.log[1:], 1):
+                    if u != f"https://h/api/v1/sessions/x?page={k}":
+                        bad("follows_the_next_link", f"request {k}: {u}")
+                for g in got:
+                    tz = pytz.timezone(g["timezone"])
+                    b = bases[g["_id"]]
+                    for f, off in (("connectionTime", 0), ("disconnectTime", 3)):
+                        v = g[f]
+                        if not isinstance(v, datetime) or v.tzinfo is None or v != b + timedelta(hours=off) or v.utcoffset() != (b + timedelta(hours=off)).astimezone(tz).utcoffset():
+                            bad("timestamp_fields_become_aware_datetimes_in_the_document_zone", f"{f}: {v!r} vs {b + timedelta(hours=off)}")
+                    if g["note"] != "not a date" or g["doneChargingTime"] is not None or g["kWhDelivered"] != 3.2:
+                        bad("other_fields_untouched", f"{g}")
+                    if "chargingCurrent" in g:
+                        tsl = g["chargingCurrent"]["timestamps"]
+                        if [x for x in tsl] != [b + timedelta(minutes=5 * k) for k in range(2)] or any(x.tzinfo is None for x in tsl) or g["chargingCurrent"]["current"] != [1.0, 2.0]:
+                            bad("time_series_timestamps_converted", f"{tsl}")
+        # invalid site: rejected before any request
+        srv = Server([[]], "")
+        dc.requests.get = srv.get
+        for site in ("Caltech", "", "jpl ", "office002"):
+            evals += 1
+            try:
+                list(dc.DataClient("T").get_sessions(site))
+                bad("invalid_site_rejected", site)
+            except ValueError:
+                pass
+            if srv.log:
+                bad("invalid_site_rejected_before_any_request", f"{site}: {srv.log}")
+        # time window wrapper
+        for _ in range(20):
+            srv = Server([[]], "")
+            dc.requests.get = srv.get
+            s = pytz.timezone("America/Los_Angeles").localize(datetime(2019, rnd.randint(1, 12), rnd.randint(1, 28), rnd.randint(0, 23), rnd.randint(0, 59)))
+            e = s + timedelta(days=rnd.randint(1, 9))
+            me = rnd.choice([None, 2.5])
+            list(dc.DataClient("T", url="u/").get_sessions_by_time("caltech", s, e, min_energy=me))
+            evals += 1
+            cond = f'connectionTime >= "{rfc(s.astimezone(pytz.utc))}" and connectionTime <= "{rfc(e.astimezone(pytz.utc))}"' + (f" and kWhDelivered > {me}" if me is not None else "")
+            exp = f"u/sessions/caltech?where={cond}&sort=connectionTime&max_results=100"
+            if srv.log[0][0] != exp:
+                bad("time_window_query", f"sent {srv.log[0][0]} expected {exp}")
+    finally:
+        dc.requests.get = orig_get
+    # RFC-1123 <-> aware datetime around DST transitions
+    zones = ["America/Los_Angeles", "America/New_York", "UTC", "Europe/London", "Australia/Sydney"] if tier == "quick" else list(pytz.common_timezones)
+    for zn in zones:
+        tz = pytz.timezone(zn)
+        trans = [t for t in getattr(tz, "_utc_transition_times", []) if 2015 <= t.year <= 2030] or [datetime(2019, 3, 10, 10), datetime(2019, 11, 3, 9)]
+        if tier == "quick":
+            trans = trans[:8]
+        for t in trans:
+            for minutes in (range(-180, 181, 7) if tier == "quick" else range(-180, 181)):
+                u = pytz.utc.localize(t) + timedelta(minutes=minutes, seconds=rnd.randint(0, 59))
+                evals += 1
+                s = rfc(u)
+                p = du.parse_http_date(s, tz)
+                if p != u or p.tzinfo is None or p.utcoffset() != u.astimezone(tz).utcoffset() or (p.year, p.month, p.day, p.hour, p.minute) != tuple(u.astimezone(tz).timetuple())[:5]:
+                    bad("parse_denotes_same_instant_in_document_zone", f"{s} {zn}: {p!r}")
+                loc = u.astimezone(tz)
+                if du.http_date(loc) != s or du.parse_http_date(du.http_date(loc), tz) != loc:
+                    bad("format_then_parse_is_identity_to_the_second", f"{loc!r}: {du.http_date(loc)}")
+    return dict(label=task.get("label", "dataclient_monitor"),
+                bound=f"all paging structures with <= {maxp} pages of {sizes} items ({len(structs)} structures) x query argument combinations against a stub server; "
+                      f"RFC-1123 conversions at every {'7th ' if tier == 'quick' else ''}minute within +-3 h of DST transitions 2015-2030 in {len(zones)} zones",
+                evaluations=evals, distinct_nontrivial=len(distinct), violations=viol, wall_s=round(time.time() - t0, 2))
